@@ -27,7 +27,7 @@ RULE = ("one evaluation = one seeded history (<= 16 operations over <= 6 source 
         "metadata, logs, tables). non-trivial = >=1 export with >=1 comparison; distinct = distinct event-log digests")
 STATE_MEASURE = ("distinct (source kind, output format, filtered, selection-size class relative to the chunk length, "
                  "set of non-scalar feature kinds exported) tuples")
-PROBES = ["sel_empty", "sel_single", "sel_full_filtered", "sel_c-1", "sel_c", "sel_c+1", "sel_2c", "sel_2c+1",
+PROBES = ["export_repeated_after_failed_attempt", "sel_empty", "sel_single", "sel_full_filtered", "sel_c-1", "sel_c", "sel_c+1", "sel_2c", "sel_2c+1",
           "duplicates_in_list", "features_none", "nonscalar_temp_exported", "scalar_temp_exported", "ancillary_exported",
           "contour_exported", "trace_exported", "mask_exported", "image_bg_exported",
           "hier_child_export", "hier_depth2_export", "child_refreshed_before_export", "basin_backed_export",
@@ -380,10 +380,14 @@ class World:
                     "suffix": r.random() < 0.8, "sel": sel, "dt": dt}
         if e["kind"] == "hier":
             self.follow_up = ("widen_parent", i, None)
-        return {"k": "export", "src": i, "feats": self.gen_feats(r, e), "filtered": r.random() < 0.72,
-                "logs": r.random() < 0.6, "tables": r.random() < 0.6, "prefix": r.choice(PREFIXES),
-                "override": r.random() < 0.5, "reuse": r.random() < 0.15, "suffix": r.random() < 0.85,
-                "adopt": r.random() < 0.3, "sel": sel, "dt": dt}
+        op = {"k": "export", "src": i, "feats": self.gen_feats(r, e), "filtered": r.random() < 0.72,
+              "logs": r.random() < 0.6, "tables": r.random() < 0.6, "prefix": r.choice(PREFIXES),
+              "override": r.random() < 0.5, "reuse": r.random() < 0.15, "suffix": r.random() < 0.85,
+              "adopt": r.random() < 0.3, "sel": sel, "dt": dt}
+        if r.random() < 0.15:
+            # a first attempt of this export fails with an I/O error or an interrupt at the at-th write call; the caller repeats it
+            op["fail_first"] = {"at": r.choice([1, 3, 6, 10, 15, 22, 30, 45, 70]) + r.randrange(3), "kind": r.choice(["err_before", "err_before", "err_after", "intr_before"])}
+        return op
 
     # ------------------------------------------------------------------
     # execution
@@ -861,6 +865,29 @@ class World:
         base_sig = {"src": e["kind"], "root": root["kind"], "filtered": filtered}
         ctx.state(e["kind"] if e["kind"] != "hier" else "hier/" + root["kind"], "rtdc", filtered, cls, "+".join(kinds))
         empty_source = n_src == 0
+        if op.get("fail_first"):
+            from dst import faultfs
+            seam = faultfs.FaultSeam(plan={int(op["fail_first"]["at"]): op["fail_first"]["kind"]}).install()
+            attempt_exc = None
+            try:
+                with warnings.catch_warnings():
+                    warnings.simplefilter("ignore")
+                    ds.export.hdf5(path_arg, features=None if arg_feats is None else list(arg_feats), filtered=filtered,
+                                   logs=bool(op["logs"]), tables=bool(op["tables"]), basins=False, meta_prefix=prefix, override=override)
+            except BaseException as ex:  # noqa: B036 (KeyboardInterrupt is one of the injected kinds)
+                if type(ex).__name__ in ("StopRun", "SystemExit"):
+                    raise
+                attempt_exc = ex
+            finally:
+                seam.uninstall()
+            if seam.fired:
+                ctx.fault(op["fail_first"]["kind"])
+                ctx.probe("export_repeated_after_failed_attempt")
+                if attempt_exc is None:
+                    ctx.probe("export_swallowed_injected_fault")
+            ctx.log("a", f"export attempt {e['tag']}", f"fired={bool(seam.fired)} raised={type(attempt_exc).__name__ if attempt_exc is not None else None}")
+            # (whatever the failed attempt left at the path is to be overwritten by the repetition)
+            override = True
         with warnings.catch_warnings():
             warnings.simplefilter("ignore")
             allow = (Exception,) if (empty_source and not filtered) else None
